@@ -67,7 +67,7 @@ def job_src(tid, src, cfg, evm="cancun", scale=1, light=False):
     # calldata longer than 2**32 bytes cannot exist (gas); without the bound, byte strings placed at the very top of a 2**256-byte
     # calldata would have to be specified too
     hyps = list(env.assumptions) + defs + [z3.ULT(env.calldatasize, BV(2**32))] + list(interp.invariants)
-    r = prove(z3.Or(*[s.pc for s in spec if not getattr(s, "optional", False)]), timeout_ms=timeout)
+    r = prove(z3.Or(*[s.pc for s in spec if not getattr(s, "optional", False)]), list(env.assumptions), timeout_ms=timeout)
     if r["status"] != "proved":
         obs.append({"clause": "spec-total", "status": "unknown", "backend": "engine", "seconds": r["seconds"], "model": None, "note": "reference semantics not total on this program (interpreter defect)", "replay": replay})
         return number(obs)
